@@ -50,6 +50,9 @@ def _worker_init() -> None:
     import logging
 
     faulthandler.enable(all_threads=True)  # a crash inside JAX/XLA leaves the Python stacks on stderr
+    import gc
+
+    gc.disable()
 
     logging.getLogger('jax._src.debugging').setLevel(logging.CRITICAL)
     logging.getLogger('jax').setLevel(logging.CRITICAL)
@@ -66,6 +69,24 @@ def _profile_for(sub: str, tier: str) -> dict:
 
 
 _history: list = []  # what this worker process has executed so far, in order
+_runs_done = 0
+
+
+def after_run() -> None:
+    """Memory hygiene between runs, while the process is single-threaded.
+
+    Automatic cyclic GC is off in workers (it could otherwise fire inside an actor thread and free
+    XLA executables of an earlier run while other threads compile -- native code we do not own);
+    garbage is collected here instead.  After a short warm-up the long-lived JAX/lineax object
+    graph is frozen so that each collection only scans what the last run allocated.
+    """
+    global _runs_done
+    import gc
+
+    _runs_done += 1
+    gc.collect()
+    if _runs_done == 3:
+        gc.freeze()
 
 
 def run_chunk(args: tuple) -> dict:
@@ -78,6 +99,13 @@ def run_chunk(args: tuple) -> dict:
     prof = _profile_for(sub, tier)
     agg = new_agg()
     t0 = time.time()
+    crash_marker = os.environ.get('VERIF_SELFTEST_CRASH_ONCE')
+    if crash_marker and not os.path.exists(crash_marker):
+        # self-test of the crash-retry path only: the first chunk to get here kills its worker
+        open(crash_marker, 'w').close()
+        import signal
+
+        os.kill(os.getpid(), signal.SIGKILL)
     done: list[int] = []
     _history.append(['gen', verif_seed, sub, tier, done])
     for i in indices:
@@ -88,6 +116,7 @@ def run_chunk(args: tuple) -> dict:
         spec = program.generate(seed, prof)
         done.append(i)
         res = runner.run_spec(spec)
+        after_run()
         if res['status'] == 'ok' and not prof.get('faults', True) and res['stmts'] != res['stmts_total']:
             # fault-free sub-campaigns: every generated statement must execute and be checked
             # (DESIGN.md 3.5); anything else means the interpreter lost part of a program
@@ -198,6 +227,7 @@ def digest_chunk(args: tuple) -> list:
         _history.append(['gen', verif_seed, sub, tier, done])
         dump = os.environ.get('VERIF_DUMP_EVENTS')
         res = runner.run_spec(spec, keep_events=bool(dump))
+        after_run()
         if dump:
             os.makedirs(dump, exist_ok=True)
             with open(os.path.join(dump, f'{sub}-{i}-{res["digest"][:12]}.json'), 'w') as f:
@@ -247,7 +277,9 @@ def run_one_spec(spec: dict) -> dict:
         _worker_init()
     from . import runner
 
-    return strip(runner.run_spec(spec))
+    res = strip(runner.run_spec(spec))
+    after_run()
+    return res
 
 
 def _history_specs(history: list, stop_seed):
@@ -296,6 +328,7 @@ def run_history_then_spec(args: tuple) -> dict:
 
     for s in _history_specs(history, spec['seed']):
         runner.run_spec(s)
+        after_run()
     return strip(runner.run_spec(spec))
 
 
